@@ -465,7 +465,9 @@ fn gen_sql_case(r: &mut Rng, n: usize) -> Value {
             // renamed / swapped output names: the rule has to map them back to scan columns
             let names = ["x", "y", "z", "w"];
             for (i, s) in sel.iter_mut().enumerate() { if r.chance(2, 3) { s["as"] = json!(names[i % 4]); } }
-            if sel.len() >= 2 && r.chance(1, 2) { let a = sel[0]["c"].clone(); let b = sel[1]["c"].clone(); sel[0]["as"] = b; sel[1]["as"] = a; }
+            // swapped names — but never a name that shadows the key's vector column: `ORDER BY f(emb, …)` would then read the alias (dialect, not C43)
+            let ig: Vec<usize> = sel.iter().enumerate().filter(|(_, s)| s["c"] == "id" || s["c"] == "g").map(|(i, _)| i).collect();
+            if ig.len() == 2 && r.chance(1, 2) { let a = sel[ig[0]]["c"].clone(); let b = sel[ig[1]]["c"].clone(); sel[ig[0]]["as"] = b; sel[ig[1]]["as"] = a; }
         }
         "wrong_dir" => { key["desc"] = json!(!want_desc); }
         "extra_key" => {}
